@@ -325,6 +325,15 @@ impl Monitor for C13 {
         vec!["history_operations", "cache_snapshots_checked", "eager_points_compared", "sequence_windows_checked", "histories_that_extended_the_cache"]
     }
 
+    fn unguarded_library_failure(&self, c: &crate::framework::Caught, rep: &mut CaseReport) -> bool {
+        // this property's objects must answer every query: a library panic / runaway loop that surfaces
+        // outside a guarded call (e.g. while the monitor inspects the shared cache) is a violation too
+        rep.violation(
+            format!("C13 kind=library-{}-outside-a-guarded-call class={}", c.kind, c.class()),
+            crate::jobj! {"caught" => c.to_json(), "case" => rep.sample.clone()},
+        );
+        true
+    }
     fn run_case(&self, _index: u64, seed: u64, _tier: Tier, rep: &mut CaseReport) {
         let mut rng = Rng::new(seed);
         let scale = *rng.pick(&[3u64, 10, 40]);
@@ -352,6 +361,9 @@ impl Monitor for C13 {
             let mut ext = Arr::build_curve(&dmin);
             // queries BEFORE the extension (also on a clone, beyond the prefix) must leave no trace
             let pre1 = ext.number_arrivals(Duration::from(3 * last + 2));
+            // (also a few steps: the clone below inherits whatever that left behind)
+            let pre_steps = ext.steps_iter().take(4).count();
+            let _ = pre_steps;
             let cl = ext.clone();
             let pre2 = cl.number_arrivals(Duration::from(7 * last + 1));
             let _ = (pre1, pre2);
@@ -383,11 +395,28 @@ impl Monitor for C13 {
                     panic!("a Curve that was queried before being extended answers differently from one that was not");
                 }
             }
-            (table(&orig, upto), table(&ext, upto), d_ext)
+            // the steps of the extended curve (and of the extended clone) must be those of ITS number_arrivals
+            let steps_ext: Vec<u64> = ext.steps_iter().map(u64::from).take_while(|x| *x <= upto).take(4000).collect();
+            let t2 = table(&cl2, upto);
+            let steps_cl2: Vec<u64> = cl2.steps_iter().map(u64::from).take_while(|x| *x <= upto).take(4000).collect();
+            let want2: Vec<u64> = (1..=upto as usize).filter(|x| t2[*x] > t2[*x - 1]).map(|x| x as u64).collect();
+            if steps_cl2 != want2 {
+                panic!("steps_iter of an extended clone differs from the points where its number_arrivals increases");
+            }
+            (table(&orig, upto), table(&ext, upto), d_ext, steps_ext)
         });
         match r {
             Err(c) => rep.violation(format!("C13 part=eager kind={} class={}", c.kind, c.class()), jobj! {"prefix"=>&dmin,"caught"=>c.to_json()}),
-            Ok((fo, fe, d_ext)) => {
+            Ok((fo, fe, d_ext, steps_ext)) => {
+                let want_steps: Vec<u64> = (1..fe.len()).filter(|x| fe[*x] > fe[*x - 1]).map(|x| x as u64).collect();
+                rep.count("steps_of_extended_curves_compared", 1);
+                if steps_ext != want_steps {
+                    let k = (0..want_steps.len().max(steps_ext.len())).find(|k| steps_ext.get(*k) != want_steps.get(*k)).unwrap_or(0);
+                    rep.violation(
+                        "C13 part=eager kind=steps_iter-after-extension-differs-from-number_arrivals".to_string(),
+                        jobj! {"prefix"=>&dmin,"extension"=>which,"position"=>k,"yielded"=>steps_ext.get(k).copied(),"expected"=>want_steps.get(k).copied()},
+                    );
+                }
                 // how long did the vector get? (min_distance saturates at the last entry)
                 let mut len_ext = d_ext.len();
                 while len_ext > dmin.len() && d_ext[len_ext - 1] == d_ext[len_ext - 2] && len_ext > 1 {
